@@ -20,15 +20,19 @@ MANIFEST = dict(
               'and support selection are translated from the Python source on every run; extracted-model vs. real nnvg '
               'correspondence on random histories including killed runs',
     text='Theorems in coq/theories/Properties/C12.v over tree = path -> option (content id, mode, owner, file|directory) with env = '
-         'superuser flag, umask, ancestors, child, symbolic links (followed by exists/is_dir/stat/chmod/open). Statements carry '
-         'links_safe (target not a link, or the translated gate refuses links: gate_links_dichotomy decides by computation which '
-         'regime /repo is in; before the proposed C12_symlink_fix.patch the full statements are refuted by witness for a dangling link '
-         'under --no-overwrite and a live link to a foreign file: dangling_link_no_overwrite_refuted, live_link_overwrite_refuted; '
-         'after it symlink_at_target_fails). --pp-run-program is modelled (PPExternal f, translated call, run in the harness) in the '
-         'footprint/no-overwrite/directory/link statements; success and equals-fresh are proved without it (no_external). '
-         'no_overwrite_ok_iff/error_iff hold with NoDup targets discharged from C11 (targets_distinct_from_c11). '
-         'render_independent_from_c10 instantiates the content premise from C10_file_indep_real up to one missing lemma (totality '
-         'of generation in C10\'s model). Under the NAMED premise render_independent (text depends on (class, path) only: '
+         'superuser flag, umask, ancestors, child, symbolic links (followed by exists/is_dir/stat/chmod/open), special entries '
+         '(devices, FIFOs, sockets). FIX-STATE OBLIGATIONS on the gate translated on this run: gate_refuses_links_live (84a8551) and '
+         'gate_refuses_directories_live (7df01dd) are unconditional theorems, fix_state_guards computes that the witness of every '
+         'finding recorded as fixed in known_findings.d/C12.json does not reproduce on the model -- a revert breaks the build; the '
+         'check additionally turns a reproducing probe of a fixed finding into a VIOLATION and always generates links/directories at '
+         'targets. Statements carry specials_safe (no device/FIFO/socket at a target, or gate_refuses_special: nonregular_regime, '
+         'special_at_target_refuted until design_notes/C12_nonregular_fix.patch lands). --pp-run-program is modelled (PPExternal f, '
+         'translated call, run in the harness) in the footprint/no-overwrite/directory/link statements; success and equals-fresh are '
+         'proved without it (no_external). no_overwrite_ok_iff/error_iff hold with NoDup targets discharged from C11 '
+         '(targets_distinct_from_c11). MODEL BOUNDARY (not findings): hard links (no inode identity) and symbolic links in the '
+         'directory chain of a target. '
+         'render_independent_from_c10 instantiates the content premise from C10_file_indep_real, C10\'s single_run_entry (existence) and '
+         'decidability of entry matching (not stated in C10). Under the NAMED premise render_independent (text depends on (class, path) only: '
          'C10/C07) and env_wf: after ANY history of runs and crashes from ANY start tree a successful non-dry run with a SetFileMode '
          'leaves every target equal to the run into the empty directory (regen_equals_fresh, regen_canonical, '
          'regen_content_canonical; no exclusion: since fix 7df01dd a directory at the path of any file to generate makes the run '
@@ -164,6 +168,9 @@ def snapshot(outdir: str) -> dict:
             if stat.S_ISLNK(st.st_mode):
                 snap[os.path.relpath(full, outdir)] = ['l', os.path.basename(os.readlink(full)), 0, None]
                 continue
+            if not stat.S_ISREG(st.st_mode):      # device, FIFO, socket: never opened by the snapshot
+                snap[os.path.relpath(full, outdir)] = ['s', stat.S_IFMT(st.st_mode), stat.S_IMODE(st.st_mode), None]
+                continue
             with open(full, 'rb') as f:
                 data = f.read()
             rel = os.path.relpath(full, outdir)
@@ -253,7 +260,7 @@ def active_targets(d: dict) -> typing.List[str]:
 
 
 def gen_history(rng, mode: str, pool: typing.List[dict], fresh: Fresh, max_len: int, dir_at_copy_ok: bool = False,
-                links_ok: bool = False) -> dict:
+                links_ok: bool = False, specials: typing.Sequence[str] = ()) -> dict:
     # the external program runs in a subprocess, outside the permission shim: not in the emulated-unprivileged mode
     ok_pool = [c for c in pool if (mode != 'plain' or not c['extra']) and (mode != 'nonroot' or not c.get('runprog'))]
     with_extra = [c for c in ok_pool if c['extra']]
@@ -282,6 +289,11 @@ def gen_history(rng, mode: str, pool: typing.List[dict], fresh: Fresh, max_len: 
                 pre.append({'path': t, 'kind': 'link', 'dest': 'victim%d.h' % n, 'live': rng.random() < 0.5,
                             'mode': rng.choice([0o444, 0o644, 0o400]), 'owned': True})
                 used.add(t)
+    if specials and all_targets and rng.random() < 0.15:
+        t = rng.choice(all_targets)
+        if t not in used and not any(u.startswith(t + '/') for u in used):
+            pre.append({'path': t, 'kind': 'special', 'what': rng.choice(list(specials)), 'mode': rng.choice([0o444, 0o644, 0o600]), 'owned': True})
+            used.add(t)
     if rng.random() < 0.08:
         b = rng.choice(['ns/sub', 'nunavut', 'ns'])
         if b not in used and not any(u.startswith(b + '/') for u in used):
@@ -323,6 +335,11 @@ def populate(outdir: str, h: dict) -> None:
         os.makedirs(os.path.dirname(full), exist_ok=True)
         if e['kind'] == 'dir':
             os.makedirs(full, exist_ok=True)
+        elif e['kind'] == 'special':
+            if e['what'] == 'fifo':
+                os.mkfifo(full)
+            else:
+                os.mknod(full, 0o600 | stat.S_IFCHR, os.makedev(1, 3))      # /dev/null's numbers
         elif e['kind'] == 'link':
             ext = os.path.join(os.path.dirname(outdir), 'ext')
             os.makedirs(ext, exist_ok=True)
@@ -450,11 +467,16 @@ def model_line(h: dict, fresh: Fresh, start: dict, umask: int):
             pid(a)
     foreign: typing.List[str] = [EMPTY_SHA]
     files = []
+    specials: typing.List[str] = []
     owned = {e['path']: e.get('owned', True) for e in h['pre']}
     for rel in list(uni):
         e = start.get(rel)
         if e is None or e[0] == 'l':
             continue            # a symbolic link is part of env.links, not an entry
+        if e[0] == 's':
+            files.append('%d:0:%d:1:0' % (pid(rel), e[2]))      # device/FIFO: mode and owner only; listed in env.special
+            specials.append(str(pid(rel)))
+            continue
         if e[0] == 'd':
             files.append('%d:0:%d:1:1' % (pid(rel), e[2]))
         else:
@@ -486,7 +508,7 @@ def model_line(h: dict, fresh: Fresh, start: dict, umask: int):
             evs.append('C:%d:%d:%s/%s' % (st['crash']['idx'], j, '1' if junk else '-', cfg))
         else:
             evs.append('R/' + cfg)
-    line = ' '.join(['0' if nonroot else '1', str(umask), '1' if rootw else '0', ','.join(anc) or '-', ','.join(chl) or '-', ','.join(lnk) or '-',
+    line = ' '.join(['0' if nonroot else '1', str(umask), '1' if rootw else '0', ','.join(anc) or '-', ','.join(chl) or '-', ','.join(lnk) or '-', ','.join(specials) or '-',
                      ','.join(files) or '-', ','.join(str(i + 1) for i in range(len(uni))) or '-'] + evs)
     return line, uni, foreign, keys
 
@@ -525,6 +547,10 @@ def compare_model(h, fresh, impl, msteps, uni, foreign, keys) -> typing.Optional
                 if m is not None or not same_entry(e, impl[0]['snap'].get(rel)):
                     return {'step': i, 'what': 'symbolic link changed', 'path': rel, 'model': m, 'impl': e[:3]}
                 continue
+            if e is not None and e[0] == 's':
+                if m is None or m[1] != e[2] or m[2] != 0 or e[1] != (impl[0]['snap'].get(rel) or [None, None])[1]:
+                    return {'step': i, 'what': 'special entry', 'path': rel, 'model': m, 'impl': e[:3]}
+                continue
             if m is None or e is None:
                 if not (m is None and e is None):
                     return {'step': i, 'what': 'presence', 'path': rel, 'model': m, 'impl': e and e[:3]}
@@ -561,7 +587,7 @@ def copy_dir_trigger(d: dict, prev: dict) -> typing.List[str]:
 
 
 def oracle(h: dict, fresh: Fresh, impl: typing.List[dict], kf_live: bool = False, kf_hits: typing.Optional[list] = None,
-           kf_link_live: bool = False) -> typing.Optional[dict]:
+           kf_link_live: bool = False, kf_special_live: bool = False) -> typing.Optional[dict]:
     """the property itself, checked on the implementation's snapshots only (no model involved)"""
     start = dict(impl[0]['snap'])
     nonroot = h['mode'] == 'nonroot'
@@ -575,6 +601,7 @@ def oracle(h: dict, fresh: Fresh, impl: typing.List[dict], kf_live: bool = False
         trig = copy_dir_trigger(d, prev) if kf_live else []
         ltrig = [t for t in tg if t in prev and prev[t][0] == 'l'] if kf_link_live else []   # F-SYMLINK-TARGET
         ldest = {EXT + '/' + prev[t][1] for t in ltrig}
+        ltrig = ltrig + ([t for t in tg if t in prev and prev[t][0] == 's'] if kf_special_live else [])   # F-NONREGULAR-TARGET
         if (trig or ltrig) and kf_hits is not None:
             kf_hits.append((i, (trig + ltrig)[0]))
         for rel in set(prev) | set(cur):
@@ -690,10 +717,25 @@ def main(chk: core.Check, replay: typing.Optional[str] = None) -> int:
         for n in dirs:
             os.chmod(os.path.join(root, n), 0o755)
     shutil.rmtree(probe_out, ignore_errors=True)
-    kf_live = False
-    if chk.is_known('F-COPY-INTO-DIR') and copy_into_dir_reproduces:
-        kf_live = True
-        chk.report_known('F-COPY-INTO-DIR')
+    def probe_verdict(fid: str, reproduces: bool, witness: dict) -> bool:
+        """-> the finding is listed as known and live.  A witness that reproduces although the finding is recorded as FIXED is a
+        violation with the witness as failing input -- never a reason to skip a stratum.  (A candidate that is not in
+        known_findings.json at all is neither: its stratum waits until the lead lists or lands it.)"""
+        ent = chk.known_entry(fid)
+        if not reproduces:
+            return False
+        if ent is not None and ent.get('status') == 'known':
+            chk.report_known(fid)
+            return True
+        if ent is not None and ent.get('status') == 'fixed':
+            chk.violation(dict(witness, finding=fid, what='the witness of a finding recorded as fixed reproduces on /repo (the fix was reverted?)'),
+                          found_input=True)
+        return False
+
+    kf_live = probe_verdict('F-COPY-INTO-DIR', copy_into_dir_reproduces,
+                            {'pre': 'mkdir -p out/nunavut/support/extra_helper.hpp',
+                             'argv': '--target-language cpp --experimental-languages --outdir out ns (+ plain support resource extra_helper.h)',
+                             'got': 'exit 0, file written inside the directory'})
     kf_hits: typing.List[tuple] = []
 
     # probe of F-SYMLINK-TARGET: a dangling symbolic link at a target under --no-overwrite
@@ -705,12 +747,31 @@ def main(chk: core.Check, replay: typing.Optional[str] = None) -> int:
                        os.path.join(nsdir, 'ns')])
     symlink_followed = os.path.exists(os.path.join(probe2, 'ext', 'victim.h'))
     shutil.rmtree(probe2, ignore_errors=True)
-    kf_link_live = False
-    if chk.is_known('F-SYMLINK-TARGET') and symlink_followed:
-        kf_link_live = True
-        chk.report_known('F-SYMLINK-TARGET')
-    # links at targets are generated when the gate refuses them, or while the finding is listed and reproduces
-    links_ok = (not symlink_followed) or kf_link_live
+    kf_link_live = probe_verdict('F-SYMLINK-TARGET', symlink_followed,
+                                 {'pre': 'mkdir -p out/ns ext; ln -s ../../ext/victim.h out/ns/A_1_0.h',
+                                  'argv': '--target-language c --no-overwrite --generate-support never --outdir out ns',
+                                  'got': 'exit 0, no conflict reported, ext/victim.h created'})
+    links_ok = True      # symbolic links at targets are always generated: the gate must refuse them (or the finding is live)
+
+    # probe of F-NONREGULAR-TARGET: a character device at a target (a FIFO would hang an unfixed generator)
+    special_followed = False
+    probe3 = os.path.join(base, 'probe3')
+    try:
+        os.makedirs(os.path.join(probe3, 'out', 'ns'))
+        os.mknod(os.path.join(probe3, 'out', 'ns', 'A_1_0.h'), 0o600 | stat.S_IFCHR, os.makedev(1, 3))
+        prc3, _ = run_nnvg(['--target-language', 'c', '--generate-support', 'never', '--outdir', os.path.join(probe3, 'out'),
+                            os.path.join(nsdir, 'ns')], timeout=60)
+        special_followed = prc3 == 'ok'
+        can_mknod = True
+    except OSError:
+        can_mknod = False
+    shutil.rmtree(probe3, ignore_errors=True)
+    kf_special_live = probe_verdict('F-NONREGULAR-TARGET', special_followed,
+                                    {'pre': 'mkdir -p out/ns; mknod out/ns/A_1_0.h c 1 3',
+                                     'argv': '--target-language c --generate-support never --outdir out ns',
+                                     'got': 'exit 0, the target is still a character device (no generated text)'})
+    # devices at targets are generated when the gate refuses them or the finding is live; FIFOs only when refused (else nnvg hangs)
+    specials = (['chr'] if can_mknod and ((not special_followed) or kf_special_live) else []) + (['fifo'] if not special_followed else [])
 
     # 2. histories
     fresh = Fresh(base, nsdir, extra)
@@ -736,7 +797,7 @@ def main(chk: core.Check, replay: typing.Optional[str] = None) -> int:
         for i in range(n_hist):
             mode = ['plain', 'plain', 'plain', 'shim', 'nonroot', 'nonroot'][i % 6]
             ml = max_len if (quick or i % 4 == 0) else 8
-            hs.append(gen_history(rng, mode, pool, fresh, ml, dir_at_copy_ok=True, links_ok=links_ok))
+            hs.append(gen_history(rng, mode, pool, fresh, ml, dir_at_copy_ok=True, links_ok=links_ok, specials=specials))
         if links_ok:  # symbolic links at targets (F-SYMLINK-TARGET): dangling + --no-overwrite, live + overwrite; always exercised
             plain_c = {'lang': 'c', 'omit': False, 'gensup': 'never', 'trim': False, 'maxl': None, 'ext': None, 'extra': False, 'runprog': False}
             fresh.prepare([plain_c])
@@ -745,6 +806,13 @@ def main(chk: core.Check, replay: typing.Optional[str] = None) -> int:
                            'pre': [{'path': 'ns/A_1_0.h', 'kind': 'link', 'dest': 'victim0.h', 'live': live, 'mode': 0o444, 'owned': True}],
                            'steps': [{'cls': 0, 'file_mode': None, 'no_overwrite': noov, 'dry_run': False},
                                      {'cls': 0, 'file_mode': 0o644, 'no_overwrite': not noov, 'dry_run': False}]})
+        for what in specials:   # devices / FIFOs at targets, always exercised when generated
+            plain_c2 = {'lang': 'c', 'omit': False, 'gensup': 'never', 'trim': False, 'maxl': None, 'ext': None, 'extra': False, 'runprog': False}
+            fresh.prepare([plain_c2])
+            hs.append({'mode': 'plain', 'classes': [plain_c2], 'rodirs': [],
+                       'pre': [{'path': 'ns/A_1_0.h', 'kind': 'special', 'what': what, 'mode': 0o444, 'owned': True}],
+                       'steps': [{'cls': 0, 'file_mode': None, 'no_overwrite': False, 'dry_run': False},
+                                 {'cls': 0, 'file_mode': 0o644, 'no_overwrite': True, 'dry_run': False}]})
         if True:      # the corner of the former finding F-COPY-INTO-DIR (fixed by 7df01dd): must now be refused, always exercised
             for mode in ('shim', 'nonroot'):
                 hs.append({'mode': mode, 'classes': [pool[1]], 'rodirs': [],
@@ -765,7 +833,7 @@ def main(chk: core.Check, replay: typing.Optional[str] = None) -> int:
     stats = {'histories': len(hs), 'steps': 0, 'plain_nnvg_steps': 0, 'shim_root_steps': 0, 'nonroot_emulated_steps': 0,
              'no_overwrite_steps': 0, 'no_overwrite_conflicts': 0, 'dry_run_steps': 0, 'failed_runs_other': 0,
              'overwrites_of_readonly_files': 0, 'overwrites_of_existing_files': 0, 'copy_header_writes': 0,
-             'shutil_copy_writes': 0, 'interrupted_runs': 0, 'links_at_targets': 0, 'run_program_steps': 0, 'dir_at_target': 0, 'blocked_parent': 0, 'readonly_dirs': 0, 'not_owned_files': 0,
+             'shutil_copy_writes': 0, 'interrupted_runs': 0, 'links_at_targets': 0, 'specials_at_targets': 0, 'run_program_steps': 0, 'dir_at_target': 0, 'blocked_parent': 0, 'readonly_dirs': 0, 'not_owned_files': 0,
              'langs': {}, 'max_history_len': 0, 'content_classes': len(fresh.by_key)}
     distinct = set()
     model_bad, oracle_bad = [], []
@@ -783,6 +851,7 @@ def main(chk: core.Check, replay: typing.Optional[str] = None) -> int:
         stats['max_history_len'] = max(stats['max_history_len'], len(h['steps']))
         stats['dir_at_target'] += any(e['kind'] == 'dir' for e in h['pre'])
         stats['links_at_targets'] += sum(1 for e in h['pre'] if e['kind'] == 'link')
+        stats['specials_at_targets'] += sum(1 for e in h['pre'] if e['kind'] == 'special')
         stats['blocked_parent'] += any(e.get('content') == 'in the way\n' for e in h['pre'])
         stats['readonly_dirs'] += bool(h.get('rodirs'))
         stats['not_owned_files'] += sum(1 for e in h['pre'] if not e.get('owned', True))
@@ -815,7 +884,7 @@ def main(chk: core.Check, replay: typing.Optional[str] = None) -> int:
             if (impl[i]['rc'] != 'ok' or any(t in prev for t in tg)) and not st['dry_run']:
                 distinct.add(json.dumps([class_key(cl), st['file_mode'], st['no_overwrite'], impl[i]['rc'],
                                          sorted((r, e[1], e[2]) for r, e in prev.items() if r in tg)], sort_keys=True))
-        ob = oracle(h, fresh, impl, kf_live, kf_hits, kf_link_live)
+        ob = oracle(h, fresh, impl, kf_live, kf_hits, kf_link_live, kf_special_live)
         if ob:
             oracle_bad.append((k, ob))
         if mouts and k < len(mouts) and not mouts[k].startswith('ERR'):
@@ -851,6 +920,8 @@ def main(chk: core.Check, replay: typing.Optional[str] = None) -> int:
         'umask': umask,
         'copy_into_dir_reproduces': copy_into_dir_reproduces,
         'symlink_at_target_followed': symlink_followed,
+        'special_at_target_followed': special_followed,
+        'specials_generated': specials,
         'links_generated': links_ok,
         'known_finding_instances': len(kf_hits),
     })
@@ -865,10 +936,10 @@ def main(chk: core.Check, replay: typing.Optional[str] = None) -> int:
 
         def failing(hh):
             im = run_history_impl(hh, os.path.join(base, 'shr-%d' % (time.time_ns() % 1000000)), nsdir, extra)
-            return oracle(hh, fresh, im, kf_live, None, kf_link_live) is not None
+            return oracle(hh, fresh, im, kf_live, None, kf_link_live, kf_special_live) is not None
         small = shrink_history(hs[k], failing)
         im = run_history_impl(small, os.path.join(base, 'shr-final'), nsdir, extra)
-        chk.violation({'history': slim(small), 'original_history': slim(hs[k]), 'violated': oracle(small, fresh, im, kf_live, None, kf_link_live) or ob,
+        chk.violation({'history': slim(small), 'original_history': slim(hs[k]), 'violated': oracle(small, fresh, im, kf_live, None, kf_link_live, kf_special_live) or ob,
                        'what': 'the real generator violates the property on this history', 'broken': broken,
                        'n_failing_histories': len(oracle_bad),
                        'steps_argv': [step_argv(s, small['classes'][s['cls']], '<dsdl>', '<out>') for s in small['steps']]}, found_input=True)
